@@ -85,6 +85,25 @@ def with_failure(files, fail):
     return out
 
 
+def with_failures(files, fails):
+    """Copy of the directory with every statement at (f, s, kind) in `fails` replaced by a failing one."""
+    out = copy.deepcopy(files)
+    for f, s, kind in fails or []:
+        out[f]["stmts"][s] = bad_stmt(kind, f, s)
+    return out
+
+
+def either(*hs):
+    """Set of acceptable hash values (a resumed revision may carry the hash of any version of the file it
+    was attempted with; which one it finally carries is judged against the clean run at the end)."""
+    vals = []
+    for h in hs:
+        for x in (h[1:] if isinstance(h, tuple) else (h,)):
+            if x not in vals:
+                vals.append(x)
+    return ("either",) + tuple(vals)
+
+
 def render(files):
     """name -> text. A file directive needs an empty line after it to be a file (not statement) directive."""
     out = {}
@@ -186,9 +205,10 @@ def expect_apply(files, sums, st, mode, count, fail, fk_on):
                 # none: the prefix stays and is recorded with the error
                 cur.stmts = cur.stmts + tentative
                 cur.partial = s
+                prev = cur.revs.get(f["version"])
                 cur.revs[f["version"]] = {"version": f["version"], "description": f["desc"], "type": 2, "applied": s,
                                           "total": len(f["stmts"]), "error": "<nonempty>", "error_stmt": f["stmts"][s],
-                                          "hash": sums.get(f["name"])}
+                                          "hash": sums.get(f["name"]) if prev is None else either(prev.get("hash"), sums.get(f["name"]))}
                 return Expect(True, cur, "statement failed in none mode", bug)
             tentative.append(f["stmts"][s])
         if file_fk and em == "file":
@@ -201,7 +221,7 @@ def expect_apply(files, sums, st, mode, count, fail, fk_on):
         cur.revs[f["version"]] = _rev_done(f, sums)
         if old is not None:
             # a resumed file keeps the row it had; which file hash it then carries is checked at the end
-            cur.revs[f["version"]]["hash"] = ("either", old.get("hash"), sums.get(f["name"]))
+            cur.revs[f["version"]]["hash"] = either(old.get("hash"), sums.get(f["name"]))
         if bug is None and mode == "none" and em == "file" and pi + 1 < len(pend):
             # pre-registered defect class: the file's transaction is not committed before the next file starts
             bug = ("C13|none+directive-file", at_file_start)
